@@ -57,3 +57,34 @@ FAMILIES["cow"] = {
         ]}]},
     ],
 }
+
+FAMILIES["map"] = {
+    "anchor": "src/algorithm/map.rs probe loops (insert_impl, remove_impl, MapKeys::get, set_tombstones)",
+    "bound": "capacity 2 (quick) / 3 (thorough), scalar f64 keys; every cell any of {empty, tombstone, arbitrary f64}; one operation from an arbitrary well-formed table (single-step induction)",
+    "header": "use crate::shim::*;\nuse std::cmp::Ordering;\nuse std::hash::{Hash, Hasher};\n",
+    "rewrites": (PUBCRATE,),
+    "dropped": "nothing inside the extracted items; MapKeys::get is a method: emitted inside `impl MapKeys` of the shim type",
+    "groups": [
+        {"items": [
+            {"kind": "lines", "name": "WILDCARD_NAN", "file": "parser/src/lib.rs", "regex": r"^pub const WILDCARD_NAN: f64 = [^;]*;\n"},
+            {"kind": "lines", "name": "EMPTY_NAN", "file": "src/algorithm/map.rs", "regex": r"^pub const EMPTY_NAN: f64 = [^;]*;\n"},
+            {"kind": "lines", "name": "TOMBSTONE_NAN", "file": "src/algorithm/map.rs", "regex": r"^pub const TOMBSTONE_NAN: f64 = [^;]*;\n"},
+            {"kind": "block", "name": "trait MapItem", "file": "src/algorithm/map.rs", "header": r"^pub\(crate\) trait MapItem \{"},
+            {"kind": "block", "name": "impl MapItem for f64", "file": "src/algorithm/map.rs", "header": r"^impl MapItem for f64 \{"},
+            {"kind": "block", "name": "trait ArrayCmp", "file": "src/array.rs", "header": r"^pub trait ArrayCmp<U = Self> \{"},
+            {"kind": "block", "name": "impl ArrayCmp for f64", "file": "src/array.rs", "header": r"^impl ArrayCmp for f64 \{"},
+            {"kind": "block", "name": "struct ArrayCmpSlice", "file": "src/algorithm/mod.rs", "header": r"^pub\(crate\) struct ArrayCmpSlice<'a, T>\(pub &'a \[T\]\);", "nobrace": True},
+            {"kind": "block", "name": "impl PartialEq for ArrayCmpSlice", "file": "src/algorithm/mod.rs", "header": r"^impl<T: ArrayValue> PartialEq for ArrayCmpSlice<'_, T> \{"},
+            {"kind": "fn", "name": "insert_impl", "file": "src/algorithm/map.rs", "impl": r"^impl MapKeys \{", "fn": "insert", "inner_fn": "insert_impl",
+             "rewrites": (("R1", r"^fn insert_impl", "pub fn insert_impl", "visibility widened"),)},
+            {"kind": "fn", "name": "remove_impl", "file": "src/algorithm/map.rs", "impl": r"^impl MapKeys \{", "fn": "remove", "inner_fn": "remove_impl",
+             "rewrites": (("R1", r"^fn remove_impl", "pub fn remove_impl", "visibility widened"),)},
+            {"kind": "fn", "name": "set_tombstones", "file": "src/algorithm/map.rs", "fn": "set_tombstones",
+             "rewrites": (("R1", r"^fn set_tombstones", "pub fn set_tombstones", "visibility widened"),)},
+        ]},
+        {"wrap": "impl MapKeys", "items": [
+            {"kind": "fn", "name": "MapKeys::get", "file": "src/algorithm/map.rs", "impl": r"^impl MapKeys \{", "fn": "get",
+             "rewrites": (("R1", r"^fn get", "pub fn get", "visibility widened"),)},
+        ]},
+    ],
+}
